@@ -5,6 +5,7 @@ import Driver.C03
 import RelicVerif.Spec.CurveX
 import RelicVerif.Gen.Ep2Formulas
 import RelicVerif.Model.Ep2Conv
+import RelicVerif.Model.Ep2Mul
 
 namespace Driver.C11
 open Driver Relic.Spec.Tower Relic.Spec.CurveX Relic.Model.Formula
@@ -50,7 +51,7 @@ def legendre (p a : Nat) : Int :=
 /-- defining properties of the reported twist: the extension is a field (qnr is a non-residue), the generator is on the twist,
     r·G = O with the same r as the base curve, and the cofactor times r is the order of the twist:
     #E'(Fp2) = h·r must kill G (checked) and lie in the Hasse interval for q = p² -/
-def checkParam (e : Env) : List String :=
+def checkParamBase (e : Env) : List String :=
   let d := e.c.d
   let qnr := ((d.levels.headD default).nr).headD 0
   (if legendre d.p qnr == -1 then [] else ["qnr is a quadratic residue: Fp[u]/(u^2 - qnr) is not a field"]) ++
@@ -108,6 +109,230 @@ def normPt (d : Desc) (r : Pt (List Nat)) : PointX :=
 def fmtPoint (d : Desc) : PointX → String
   | none => "inf"
   | some (x, y) => String.intercalate "," ((d.canon x ++ d.canon y).map natToHex)
+
+/-! ### model column of the scalar multiplications that do not go through the Frobenius (GLS) recoding: the loops of
+    Model/MulAlg.lean and Model/EpMul.lean with the recodings of Model/Rec.lean at the buffer capacities of
+    src/epx/relic_ep2_mul*.c, over the affine law of the twist (Spec/CurveX).  Differences from the prime-curve routines that are
+    mirrored: ep2_mul_slide recodes |k| itself (no reduction modulo r; capacity RLC_FP_BITS + 1), the single-table comb has no
+    endomorphism form, ep2_mul_fix_lwnaf recodes with capacity 2·RLC_FP_BITS + 1, ep2_mul_sim_trick with ⌈2·RLC_FP_BITS / w⌉ windows. -/
+
+section mulModel
+open Relic.Model.MulAlg Relic.Model.EpMul Relic.Model.Rec
+open Relic.Model.EbMul (tabCombs)
+
+structure MulCtx where
+  c : CurveX
+  n : Nat
+  g : PointX
+  endom : Bool
+  width : Nat
+  depth : Nat
+  fpbits : Nat
+  wd : Nat
+  /-- constants of ep2_frb, family parameter, BN branch of bn_rec_frb (none: the context line does not report them) -/
+  frb : Option (List Nat × List Nat × Int × Bool)
+
+def mkCtx (e : Env) (wd : Nat) : Option MulCtx := do
+  let num := fun (k : String) => (e.kv.lookup k).bind String.toNat?
+  let el := fun (k : String) => (e.kv.lookup k).bind fun s => match s.splitOn "," with
+    | [a, b] => parseEl e.c.d a b
+    | _ => none
+  let frb : Option (List Nat × List Nat × Int × Bool) := do
+    some (← el "frb0", ← el "frb1", ← (e.kv.lookup "u").bind C03.parseHexInt', e.kv.lookup "bnfam" == some "1")
+  some { c := e.c, n := e.n, g := e.g, endom := e.kv.lookup "endom" == some "1",
+         width := ← num "width", depth := ← num "depth", fpbits := ← num "fpbits", wd := wd, frb := frb }
+
+/-- ep2_frb(·, 1) on an affine point: (x, y) ↦ (conj(x)·frb0, conj(y)·frb1) -/
+def psiOf (c : CurveX) (f0 f1 : List Nat) : PointX → PointX
+  | none => none
+  | some (x, y) => some (c.d.canon (c.d.mul (c.d.frobenius x) f0), c.d.canon (c.d.mul (c.d.frobenius y) f1))
+
+def xops (c : CurveX) : Relic.Model.MulAlg.Ops PointX := ⟨none, add c, neg c⟩
+def ceilDiv (a b : Nat) : Nat := (a + b - 1) / b
+def emod (k : Int) (n : Nat) : Nat := (k % (n : Int)).toNat
+
+/-- bn_rec_frb on k mod n -/
+def recFrb (m : MulCtx) (x : Int) (bn : Bool) (k : Int) : List Int :=
+  let K := emod k m.n
+  if bn then Relic.Model.Ep2Mul.recFrbBN K m.n x else Relic.Model.Ep2Mul.recFrbBase K x
+
+/-- ep2_mul_lwnaf = ep2_mul on an endomorphism curve, past the early exit (none = reported error) -/
+def mGls (m : MulCtx) (pt : PointX) (k : Int) : Option (Option PointX) := do
+  let (f0, f1, x, bn) ← m.frb
+  let o := xops m.c
+  let ks := recFrb m x bn k
+  let sub := fun (i : Nat) => ks.getD i 0
+  let naf := fun (i : Nat) => recNaf (m.fpbits + 1) (sub i).natAbs m.width
+  match naf 0, naf 1, naf 2, naf 3 with
+  | some n0, some n1, some n2, some n3 =>
+    some (some (Relic.Model.Ep2Mul.mulGls o (psiOf m.c f0 f1) pt (2 ^ (m.width - 2)) (sub 0 < 0) (sub 1 < 0) (sub 2 < 0) (sub 3 < 0) n0 n1 n2 n3))
+  | _, _, _, _ => some none
+
+/-- ep2_mul as a sub-routine -/
+def mMul (m : MulCtx) (pt : PointX) (k : Int) : Option (Option PointX) :=
+  if k == 0 || pt == none then some (some none) else if m.endom then mGls m pt k else none
+
+/-- the points ±ψ^j(P) and binary NAFs of the sub-scalars of one (point, scalar) pair (ep2_mul_sim_endom, ep2_mul_sim_lot n ≤ 10) -/
+def glsStrings (m : MulCtx) (pt : PointX) (k : Int) : Option (List (PointX × Option (List Int))) := do
+  let (f0, f1, x, bn) ← m.frb
+  let o := xops m.c
+  let psi := psiOf m.c f0 f1
+  let ks := recFrb m x bn k
+  let p1 := psi pt
+  let p2 := psi p1
+  let p3 := psi p2
+  some (([pt, p1, p2, p3].zip ks).map fun (q, kj) => (if kj < 0 then o.neg q else q, recNaf (m.fpbits + 1) kj.natAbs 2))
+
+/-- ep2_mul_sim_endom: the eight strings in the order the loop visits them (P0, Q0, P1, Q1, …) -/
+def mSimEndom (m : MulCtx) (pt : PointX) (k : Int) (qt : PointX) (l : Int) : Option (Option PointX) := do
+  let a ← glsStrings m pt k
+  let b ← glsStrings m qt l
+  let all := (a.zip b).flatMap fun (x, y) => [x, y]
+  if all.any (fun s => s.2.isNone) then some none else
+  let nafs := all.map fun s => s.2.getD []
+  let len := (nafs.map List.length).foldl max 0
+  some (some (simLotNaf (xops m.c) (all.map (·.1)) nafs len))
+
+/-- ep2_mul_sim_inter = ep2_mul_sim -/
+def mInter (m : MulCtx) (pt : PointX) (k : Int) (qt : PointX) (l : Int) : Option (Option PointX) :=
+  if k == 0 || pt == none then mMul m qt l
+  else if l == 0 || qt == none then mMul m pt k
+  else if m.endom then mSimEndom m pt k qt l else none
+
+/-- `e2l`: ep2_mul_sim_lot: interleaved binary NAFs of the 4n points for n ≤ 10, buckets above -/
+def modelLot (m : MulCtx) (pks : List (PointX × Int)) : Option String := do
+  if pks.length == 0 then some "inf" else
+  if pks.length > 10 then
+    let (f0, f1, x, bn) ← m.frb
+    let w := max 2 (bitLen pks.length - 2)
+    let nafs := pks.map fun (pk : PointX × Int) =>
+      (recFrb m x bn pk.2).map fun kj => (recNaf (m.fpbits + 1) kj.natAbs w).map fun ds => if kj < 0 then ds.map (fun dg => -dg) else ds
+    if nafs.any (fun r => r.any Option.isNone) then some "err" else
+    let nafs := nafs.map fun r => r.map fun x => x.getD []
+    let len := (nafs.map fun r => (r.map List.length).foldl max 0).foldl max 0
+    some (fmtPoint m.c.d (Relic.Model.Ep2Mul.simLotBucket4 (xops m.c) (psiOf m.c f0 f1) (pks.map (·.1)) nafs (2 ^ (w - 2)) len))
+  else
+  let strs ← pks.mapM fun (pk : PointX × Int) => glsStrings m pk.1 pk.2
+  let all := strs.flatten
+  if all.any (fun s => s.2.isNone) then some "err" else
+  let nafs := all.map fun s => s.2.getD []
+  let len := (nafs.map List.length).foldl max 0
+  some (fmtPoint m.c.d (simLotNaf (xops m.c) (all.map (·.1)) nafs len))
+
+/-- what the reported Frobenius data must satisfy (hypotheses of the GLS theorems): ψ(G) = [p mod r]G, and every column of the
+    BN lattice used by bn_rec_frb annihilates G: Σ_j rows[j][i]·ψ^j(G) = O -/
+def checkFrb (m : MulCtx) : List String :=
+  match m.frb with
+  | none => []
+  | some (f0, f1, x, bn) =>
+    let c := m.c
+    let psi := psiOf c f0 f1
+    let g1 := psi m.g
+    let g2 := psi g1
+    let g3 := psi g2
+    (if canonPt c g1 == canonPt c (mulNat c m.g (c.d.p % m.n)) then [] else ["psi(G2) != [p mod r]G2"]) ++
+    (if !bn then [] else
+      (List.range 4).filterMap fun i =>
+        let col := (Relic.Model.Ep2Mul.frbRows x).map fun row => row.getD i 0
+        let s := ([m.g, g1, g2, g3].zip col).foldl (fun acc (q, u) => add c acc (mul c q u)) none
+        if s == none then none else some ("column " ++ toString i ++ " of the bn_rec_frb lattice does not annihilate G2"))
+
+/-- `e2m`: none = the routine is not modelled here (Frobenius recodings); some "err" = the model predicts a reported error -/
+def modelMul (m : MulCtx) (v : String) (pt : PointX) (k : Int) : Option String :=
+  let o := xops m.c
+  let d := m.c.d
+  let w := m.width
+  let dp := m.depth
+  let bitsN := bitLen m.n
+  let K := emod k m.n
+  let sgn := fun (r : PointX) => if k < 0 then o.neg r else r
+  let out := fun (r : Option PointX) => match r with
+    | some j => some (fmtPoint d j)
+    | none => some "err"
+  let nafDig := fun (a cap : Nat) => (recNaf cap a 2).map fun ds => mulSigned o [pt] none ds
+  let trivial := k == 0 || pt == none
+  let combs := fun (base : PointX) =>
+    let l := ceilDiv bitsN dp
+    mulCombsPlain o (tabCombs o base l dp) K l dp
+  if v == "basic" || v == "big" then
+    if trivial then some "inf"
+    else if bitLen k.natAbs ≤ m.wd then out ((nafDig k.natAbs (m.wd + 1)).map sgn)
+    else out ((nafDig k.natAbs (bitLen k.natAbs + 1)).map sgn)
+  else if v == "dig" then
+    if trivial then some "inf" else out (nafDig k.natAbs (m.wd + 1))
+  else if v == "slide" then
+    if trivial then some "inf" else
+    out ((recSlw (m.fpbits + 1) k.natAbs w).map fun win => sgn (mulSlide o (tabOdd o pt (2 ^ (w - 1))) o.zero win))
+  else if v == "monty" then
+    if trivial then some "inf" else
+    let l := K + m.n
+    let l := if l.testBit bitsN then l else l + m.n
+    out (some (mulLadder o pt ((List.range bitsN).reverse.map fun i => l.testBit i)))
+  else if v == "lwnaf" || v == "mul" then
+    if trivial then some "inf" else if !m.endom then none else (mGls m pt k).bind out
+  else if v == "gen" then
+    if k == 0 then some "inf" else out (some (combs m.g))
+  else if v == "fix_basic" then
+    -- an identity base gives a table of identities (no error, unlike ep2_mul_pre_lwnaf)
+    if k == 0 then some "inf" else
+    out (some (mulFixBasic o (tabPow2 o pt bitsN) o.zero K))
+  else if v == "fix_combs" || v == "fix_" then
+    if k == 0 then some "inf" else out (some (combs pt))
+  else if v == "fix_combd" then
+    if k == 0 then some "inf" else
+    let dd := ceilDiv bitsN dp
+    let e := ceilDiv dd 2
+    out (some (mulCombd o (tabCombd o pt dd e dp) K dd e dp))
+  else if v == "fix_lwnaf" then
+    -- ep2_tab normalises t[1 …] simultaneously: with an identity base that is an inversion of zero, reported (known finding)
+    if pt == none then some "err" else if k == 0 || K == 0 then some "inf" else
+    out ((recNaf (2 * m.fpbits + 1) K dp).map fun ds => mulSigned o (tabOdd o pt (2 ^ (dp - 2))) o.zero ds)
+  else none
+
+/-- `e2s` -/
+def modelSim (m : MulCtx) (v : String) (pt : PointX) (k : Int) (qt : PointX) (l : Int) : Option String :=
+  let o := xops m.c
+  let d := m.c.d
+  let out := fun (r : Option PointX) => match r with
+    | some j => some (fmtPoint d j)
+    | none => some "err"
+  let K := emod k m.n
+  let L := emod l m.n
+  if v == "basic" then
+    match mMul m qt l, mMul m pt k with
+    | some (some a), some (some b) => out (some (o.add a b))
+    | some _, some _ => some "err"
+    | _, _ => none
+  else if v == "inter" || v == "sim" then (mInter m pt k qt l).bind out
+  else if v == "gen" then
+    if k == 0 then (mMul m qt l).bind out
+    else if l == 0 || qt == none then modelMul m "gen" m.g k
+    else (mInter m m.g (K : Int) qt (L : Int)).bind out
+  else if k == 0 || pt == none then (if v == "trick" || v == "joint" then (mMul m qt l).bind out else none)
+  else if l == 0 || qt == none then (if v == "trick" || v == "joint" then (mMul m pt k).bind out else none)
+  else if v == "trick" then
+    let w := m.width / 2
+    let tab := tabTrick o pt qt w
+    -- ep2_norm_sim over t[2 …]: an identity among them is a reported error (known finding)
+    if (tab.drop 2).any (fun (x : PointX) => x == none) then some "err" else
+    let cap := ceilDiv (2 * m.fpbits) w
+    match recWin cap K w, recWin cap L w with
+    | some w0, some w1 => out (some (simTrick o tab o.zero w w0 w1))
+    | _, _ => some "err"
+  else if v == "joint" then
+    if o.add pt qt == none || o.sub pt qt == none then some "err" else
+    match recJsf (2 * (m.fpbits + 1)) K L with
+    | some (j0, j1) => out (some (simJoint o pt qt j0 j1))
+    | none => some "err"
+  else none
+
+/-- the defining properties of the twist plus those of the Frobenius data the GLS models use -/
+def checkParam (e : Env) : List String :=
+  checkParamBase e ++ (match mkCtx e 64 with
+    | some m => checkFrb m
+    | none => [])
+
+end mulModel
 
 def handle (e : Env) (w : Nat) (op : String) (args : List String) (got : String) : Option Verdict :=
   let c := e.c
@@ -174,7 +399,10 @@ def handle (e : Env) (w : Nat) (op : String) (args : List String) (got : String)
     let k ← pI k
     let p' := if v == "gen" then e.g else p0
     let k' := if v == "dig" then ((k.natAbs % 2 ^ w : Nat) : Int) else k
-    some { model := got, spec := [fmtPoint d (mul c p' k')], tags := ["mul." ++ v] }
+    let spec := fmtPoint d (mul c p' k')
+    match (mkCtx e w).bind fun mc => modelMul mc v p' k' with
+    | some mdl => some { model := mdl, spec := [spec], tags := ["mul." ++ v, "model.mul." ++ v] ++ (if mdl == "err" then ["model.err"] else []) }
+    | none => some { model := got, spec := [spec], tags := ["mul." ++ v, "classC.mul." ++ v] }
   | "e2s", [v, p, k, q, m] => do
     let v := (v.splitOn ".").headD v          -- suffix .p / .q: the result object is an operand; the value is the same
     let p0 ← parsePoint d p
@@ -182,7 +410,23 @@ def handle (e : Env) (w : Nat) (op : String) (args : List String) (got : String)
     let k ← pI k
     let m ← pI m
     let p' := if v == "gen" then e.g else p0
-    some { model := got, spec := [fmtPoint d (add c (mul c p' k) (mul c q' m))], tags := ["sim." ++ v] }
+    let spec := fmtPoint d (add c (mul c p' k) (mul c q' m))
+    match (mkCtx e w).bind fun mc => modelSim mc v p' k q' m with
+    | some mdl => some { model := mdl, spec := [spec], tags := ["sim." ++ v, "model.sim." ++ v] ++ (if mdl == "err" then ["model.err"] else []) }
+    | none => some { model := got, spec := [spec], tags := ["sim." ++ v, "classC.sim." ++ v] }
+  | "e2frb", [k] => do
+    -- bn_rec_frb as the twist routines call it: model = the integer form (Model/Ep2Mul), spec = the sub-scalars the library returned
+    -- recombine to k modulo r with λ = p mod r
+    let k ← pI k
+    let mc ← mkCtx e w
+    let (_, _, x, bn) ← mc.frb
+    let fmtI := fun (a : Int) => (if a < 0 then "-" else "") ++ natToHex a.natAbs
+    let mdl := String.intercalate "," ((recFrb mc x bn k).map fmtI)
+    let lam : Int := ((d.p % e.n : Nat) : Int)
+    let ok := match (got.splitOn ",").mapM C03.parseHexInt' with
+      | some [k0, k1, k2, k3] => (k0 + k1 * lam + k2 * lam ^ 2 + k3 * lam ^ 3 - k) % (e.n : Int) == 0
+      | _ => false
+    some { model := mdl, spec := [if ok then got else "<k0,k1,k2,k3 with k0 + k1 l + k2 l^2 + k3 l^3 = k mod r>"], tags := ["model.rec_frb" ++ (if bn then ".bn" else ".base")] }
   | "e2wb", [len, pack, q] => do
     -- C07: ep2_write_bin; the model is Model/Ep2Conv.writeBin with the sign rule of ep2_upk (what the property needs for decode ∘ encode = id)
     let len ← len.toNat?
@@ -317,7 +561,34 @@ def handle (e : Env) (w : Nat) (op : String) (args : List String) (got : String)
             go i l (add c acc (mul c p k))
           | _, _ => none
         let r ← go n rest none
-        some { model := got, spec := [fmtPoint d r], tags := [op] }
+        if dig then
+          let rec pairsD (i : Nat) (l : List String) : Option (List (PointX × Nat)) :=
+            match i, l with
+            | 0, _ => some []
+            | i + 1, p :: k :: l => do
+              let p ← parsePoint d p
+              let k ← pI k
+              let t ← pairsD i l
+              some ((p, k.natAbs % 2 ^ w) :: t)
+            | _, _ => none
+          let pks ← pairsD n rest
+          let mx := (pks.map fun (pk : PointX × Nat) => Relic.Model.Rec.bitLen pk.2).foldl max 0
+          let mdl := fmtPoint d (Relic.Model.EpMul.simDig (xops c) (pks.map (·.1)) (pks.map (·.2)) mx)
+          some { model := mdl, spec := [fmtPoint d r], tags := [op, "model.sim_dig"] }
+        else
+        let rec pairsL (i : Nat) (l : List String) : Option (List (PointX × Int)) :=
+          match i, l with
+          | 0, _ => some []
+          | i + 1, p :: k :: l => do
+            let p ← parsePoint d p
+            let k ← pI k
+            let t ← pairsL i l
+            some ((p, k) :: t)
+          | _, _ => none
+        let pks ← pairsL n rest
+        match (mkCtx e w).bind fun mc => modelLot mc pks with
+        | some mdl => some { model := mdl, spec := [fmtPoint d r], tags := [op, if n > 10 then "model.sim_lot.bucket" else "model.sim_lot.naf"] ++ (if mdl == "err" then ["model.err"] else []) }
+        | none => some { model := got, spec := [fmtPoint d r], tags := [op, "classC.sim_lot" ++ (if n > 10 then ".bucket" else "")] }
       | _ => none
     else none
 
